@@ -6,7 +6,9 @@ export GOFLAGS=-mod=mod GOPROXY=off GOSUMDB=off GOTOOLCHAIN=local
 mkdir -p "$HERE/bin" "$HERE/evidence"
 cd "$HERE/harness" || exit 1
 rc=0
-for d in cmd/c*/; do
+# every exported operator of package ro must have a catalogue entry or a reasoned exclusion
+go run -tags verif ./cmd/catcov || rc=1
+for d in cmd/c[0-9]*/; do
   id=$(basename "$d")
   go build -tags verif -o "$HERE/bin/$id" "./$d" || rc=1
   if [ -f "$d/.race" ]; then go build -race -tags verif -o "$HERE/bin/$id.race" "./$d" || rc=1; fi
